@@ -380,6 +380,11 @@ def classify(drv: core.Driver, req: dict[str, Any]) -> dict[str, Any]:
     req2 = dict(req, calls=without_reads(req["calls"]))
     ans2 = drv.ask(req2) if len(req2["calls"]) < len(req["calls"]) else {"ok": False}
     sub = "torn-read" if ans2.get("ok") else "not-linearizable"
+    if sub == "torn-read":
+        from verif.props.c03 import TRIAL_READERS, torn_readers
+        rd = torn_readers(drv, req)
+        if not rd or not set(rd) <= TRIAL_READERS:
+            sub = "torn-read-other"   # not the family of known finding F16: stays unlisted
     if sub == "not-linearizable":
         w = req2["calls"]
         only_sp = bool(w) and all(c["op"]["op"] == "setTrialParam" for c in w)
@@ -478,7 +483,35 @@ def _signature(rec: dict[str, Any]) -> dict[str, Any]:
         return {"backend": backend, "base": "sqlite", "kind": sub, "controlled": False}  # the signatures of F16 / F37
     names = [rec["a"]] + [b for b, _ in rec["plan"]]
     return {"backend": backend, "base": "sqlite", "kind": sub, "controlled": True, "a": rec["a"].split("(")[0], "b": rec["plan"][0][0].split("(")[0],
-            "delete_study_race": any(n.startswith("deleteStudy") for n in names)}
+            "delete_study_race": _is_delete_study_family(names)}
+
+
+def _study_of_call(name: str) -> "int | None":
+    """the study a catalogue call acts on: `…(s1…)` -> 1, `…(t4…)` -> 1 (trial 4 lives in s1), other trials and bare createTrial -> 0"""
+    import re as _re
+
+    m = _re.search(r"\((s|t)(\d+)", name)
+    if m is None:
+        return 0 if name.startswith("createTrial") else None
+    n = int(m.group(2))
+    return n if m.group(1) == "s" else (1 if n == 4 else 0)
+
+
+def _is_delete_study_family(names: list[str]) -> bool:
+    """Known finding F40 is claimed only for its own family: every call of the placement is a WRITER, exactly the calls are
+    {delete_study(S)} plus writers acting on the SAME study S (create_new_trial in S, a claim / finish / attribute write of a trial
+    of S, a study-attribute write of S, or a second delete_study(S)).  A reader in the placement, a writer on another study, or
+    create_new_study are not part of it: such a history stays an unlisted `not-linearizable`."""
+    dels = [n for n in names if n.startswith("deleteStudy")]
+    if not dels:
+        return False
+    target = _study_of_call(dels[0])
+    for n in names:
+        if n.startswith("get") or n.startswith("createStudy"):
+            return False
+        if _study_of_call(n) != target:
+            return False
+    return True
 
 
 def explore(chk: core.Check) -> None:
